@@ -828,19 +828,37 @@ class Harness:
         return cur
 
     def key_for(self, cfg: dict[str, Any], small: list[Op], cat: str) -> str:
-        """Mechanism key of a minimal failing history.  When the history needs an async
-        load and its all-sync twin history shows no divergence at all, the mechanism is
-        in the async path: the key names the async step forms (whatever the symptom —
-        wrong error, leak, stale entry — and whatever the loader family)."""
-        if any(o.kind == "load" and o.mode for o in small):
-            sync = [o._replace(mode=0) if o.kind == "load" else o for o in small]
+        """Mechanism key of a minimal failing history.
+
+        capacity: the bare category.  Otherwise two counterfactual twins of the minimal
+        history localise the mechanism: if it needs an async load and its all-sync twin
+        shows no divergence at all, the mechanism is in the async path; if it needs a
+        namespace and its namespace-free twin shows none, it is in the namespace
+        handling.  Such keys name the step forms involved (whatever the symptom — wrong
+        error, leak, stale entry — and whatever the loader family).  Everything else:
+        symptom category + pattern of the minimal history."""
+        if cat == "capacity-exceeded":
+            return cat
+        loads = [o for o in small if o.kind == "load"]
+
+        def forms(pred: Callable[[Op], bool]) -> str:
+            out = set()
+            for o in loads:
+                if pred(o):
+                    out.add(("aload" if o.mode else "load") + ("[ns]" if o.ns else "")
+                            + ("(g)" if o.g == 1 else ""))
+            return "+".join(sorted(out))
+
+        if any(o.mode for o in loads):
+            twin = [o._replace(mode=0) if o.kind == "load" else o for o in small]
             self.ctx.count("minimiser_runs")
-            if self.run_history(cfg, sync, record=False) is None:
-                forms = set()
-                for o in small:
-                    if o.kind == "load" and o.mode:
-                        forms.add("aload" + ("[ns]" if o.ns else "") + ("(g)" if o.g == 1 else ""))
-                return "async-path-only:" + "+".join(sorted(forms))
+            if self.run_history(cfg, twin, record=False) is None:
+                return "async-path-only:" + forms(lambda o: bool(o.mode))
+        if any(o.ns for o in loads):
+            twin = [o._replace(ns=0, via=0) if o.kind == "load" else o for o in small]
+            self.ctx.count("minimiser_runs")
+            if self.run_history(cfg, twin, record=False) is None:
+                return "namespace-path-only:" + forms(lambda o: bool(o.ns))
         return f"{cat}:{ref.pattern(small, cat)}"
 
     def report(self, cfg: dict[str, Any], ops: list[Op], d: Divergence, origin: str) -> str:
